@@ -457,7 +457,7 @@ func TestVerifC17RawRequest(t *testing.T) {
 	}
 	verifkit.Run(t, "C17RawRequest", verifkit.Spec[vfRawReq]{
 		Gen: func(t *rapid.T) vfRawReq {
-			c := vfRawReq{H2: rapid.Bool().Draw(t, "h2"), Verb: rapid.SampledFrom([]string{"POST", "POST", "GET", "PUT"}).Draw(t, "verb")}
+			c := vfRawReq{H2: rapid.Bool().Draw(t, "h2"), Verb: rapid.SampledFrom([]string{"POST", "POST", "GET", "PUT", "post", "Patch", "QUERY", "Query"}).Draw(t, "verb")}
 			c.Path = rapid.SampledFrom([]string{"/connectrpc.conformance.v1.ConformanceService/Unary", "/some/other/path", "/",
 				// (paths a URL library would "clean up": they go out as given)
 				"/Svc/../Svc/Unary", "/./a/./b", "/a/b/..", "/a//b", "/a/b/",
